@@ -284,6 +284,24 @@ static int repair_step(struct snapraid_state* state, int rehash, unsigned pos, u
 	return -1;
 }
 
+/**
+ * Check if all the bytes of the hash have the specified value.
+ *
+ * It's like hash_is_invalid() with 0x00 and hash_is_zero() with 0xFF,
+ * but working also with a reduced hash size, where a real hash with
+ * such value is handled like the special one, that is the safe choice.
+ */
+static int hash_is_filled(const unsigned char* hash, unsigned char value)
+{
+	int i;
+
+	for (i = 0; i < BLOCK_HASH_SIZE; ++i)
+		if (hash[i] != value)
+			return 0;
+
+	return 1;
+}
+
 static int repair(struct snapraid_state* state, int rehash, unsigned pos, unsigned diskmax, struct failed_struct* failed, unsigned* failed_map, unsigned failed_count, void** buffer, void** buffer_recov, void* buffer_zero)
 {
 	int ret;
@@ -419,14 +437,15 @@ static int repair(struct snapraid_state* state, int rehash, unsigned pos, unsign
 				/* if the hash is invalid we cannot check the result */
 				/* this could happen if we have lost this information */
 				/* after an aborted sync */
-				/* with a reduced hash size the special INVALID and ZERO values */
-				/* cannot be recognized, and then no past hash can be trusted */
-				if (BLOCK_HASH_SIZE != HASH_MAX || hash_is_invalid(failed[j].block->hash)) {
+				/* note that hash_is_invalid() and hash_is_zero() always return 0 */
+				/* with a reduced hash size, and then here we check the bytes, */
+				/* because the special values cannot be compared as real hashes */
+				if (hash_is_filled(failed[j].block->hash, 0x00)) {
 					/* it may contain garbage */
 					failed[j].is_outofdate = 1;
 
 					log_tag("hash_unknown: Unknown hash on entry %u\n", j);
-				} else if (hash_is_zero(failed[j].block->hash)) {
+				} else if (hash_is_filled(failed[j].block->hash, 0xFF)) {
 					/* if the block is not filled with 0, we are sure to have */
 					/* restored it to the state after the 'sync' */
 					/* instead, if the block is filled with 0, it could be either that the */
